@@ -143,6 +143,7 @@ def ints_tree():
         for tail in (["-n=7"], ["-n= 7"], ["-n=7 "], ["-n=7", "-n=\t12"], ["-n=12", "-n=7"], ["-n", "7"], ["-n", " 7"], ["-n=zz"], ["-n=7", "-n=zz"], ["-n= "], ["-n=100%"], ["-n=%d%s"]):
             vectors.append(base + tail)
     vectors += [["c2"], ["c2", "-n=7"], ["c3"], ["c3", "x"], ["c3", "-n=12", "x"]]
+    vectors += [["-n=0x10"], ["-n=0b11", "c1"], ["-n=1_0", "c1", "-n=7"], ["-n=0o17"], ["c1", "-n=0x7"]]
     return {"version": "", "nodes": nodes, "vectors": vectors}
 
 
@@ -225,6 +226,19 @@ def implicit_trees():
                        ["-f", "build", "build"], ["build"], ["x", "build", "-f"], ["sh", "sh"], ["-n=7", "x", "sh"], ["--", "show"], ["--", "show", "show"]]
             out.append({"version": "", "nodes": nodes, "vectors": vectors})
     return out
+
+
+def respec_tree():
+    """the application declares an option and an argument, its sub commands declare nothing (so the object can run twice); the
+    earlier runs happen under ANOTHER spec string of the application (`prespec`)"""
+    BARE = {"opts": [], "args": []}
+    nodes = [node(["app"], "app", g.Seq(g.Optional(F), X), subs=[1]),
+             node(["check", "ck"], "app check", g.Seq(), subs=[2], prog=BARE, spec=""),
+             node(["deep"], "app check deep", g.Seq(), prog=BARE, spec="")]
+    for n in nodes[1:]:
+        n["bare"] = True
+    vectors = [["x", "check", "deep"], ["x", "y", "check", "deep"], ["-f", "x", "ck"], ["check"], ["x"], ["x", "y"], ["-f", "x", "y", "check"], ["x", "check", "bogus"]]
+    return {"version": "", "nodes": nodes, "vectors": vectors, "prespec": "X X"}
 
 
 def late_tree():
@@ -339,7 +353,8 @@ def harness_case(t, policy, argv, prerun=()):
     for n in t["nodes"]:
         nodes.append({"names": n["names"], "path": n["path"], "spec": n["spec"], "opts": [o for o in n["prog"]["opts"] if o["names"] != "n"], "intopt": "n",
                       "args": list(n["prog"]["args"]), "subs": n["subs"], "action": n["action"], "bare": n.get("bare", False), "hidden": n.get("hidden", False), "policy": n.get("policy", ""), "late": n.get("late", False), "intmulti": n.get("intmulti", False), "intenv": n.get("intenv", "")})
-    return {"nodes": nodes, "version": t["version"], "policy": policy, "argv": argv, "prerun": [list(p) for p in prerun]}     # N: an Int argument
+    return {"nodes": nodes, "version": t["version"], "policy": policy, "argv": argv, "prerun": [list(p) for p in prerun],
+            "prespec": t.get("prespec") if prerun else None}
 
 
 def predict(workdir, trs, alphabet, maxlen, policies, timeout=3000):
